@@ -61,7 +61,7 @@ def run(tier, seed):
     fam = cc.ack_flush_family()
     if tier == "quick":
         fam = [x for x in fam if "_multi_get_" in x[0] or "_single_range_" in x[0]]
-    res = cc.run_dfs(fxv, rd, fam, "ackflush", chunk=1, maxsched=150 if tier == "quick" else 800, preempt=3, par=8)
+    res = cc.run_dfs(fxv, rd, fam, "ackflush", chunk=3, maxsched=4, preempt=3, par=8)
     collect(PROP, res, rd, ["FlushAckComplete"], viol, cst)
     st["states"] += cst["states"]
     st["transitions"] += cst["transitions"]
